@@ -215,4 +215,130 @@ theorem Spec1.perElement (S : Spec1 α) (h : S.Holds) : S.toOp.PerElement := by
   apply h.congr ea e _ _ hk hpre he
   intro e' he'; exact (elem_get_of hk hsa he').symm
 
+/-- the replica evaluation depends on the batch index only through the slices of the leaves -/
+theorem BExpr.evalAt_bidxR {e : BExpr α} {ev bs : RShape} (ht : e.HasType ev bs) :
+    ∀ {r : RShape} {idx : RIdx}, Into bs r → InRange idx r → e.evalAt (bidxR bs idx) = e.evalAt idx := by
+  induction ht with
+  | @leaf t k ev bs hk hs =>
+    intro r idx hin hidx
+    have hd : t.shape.drop k = bs := by rw [hs, ← hk, List.drop_left]
+    simp only [BExpr.evalAt, hd]
+    rw [bidxR_bidxR (into_refl bs) hin hidx]
+  | un hx hk hpre ih =>
+    intro r idx hin hidx
+    simp only [BExpr.evalAt, ih hin hidx]
+  | @bin op x y ea eb ba bb bs hx hy hka hkb hpre hbc ihx ihy =>
+    intro r idx hin hidx
+    have hI := into_of_bcast hbc
+    have hr : InRange (bidxR bs idx) bs := bidxR_into_inRange hin hidx
+    simp only [BExpr.evalAt]
+    have ex : x.evalAt (bidxR bs idx) = x.evalAt idx := by
+      rw [← ihx hI.1 hr, bidxR_bidxR hI.1 hin hidx, ihx (into_trans hI.1 hin) hidx]
+    have ey : y.evalAt (bidxR bs idx) = y.evalAt idx := by
+      rw [← ihy hI.2 hr, bidxR_bidxR hI.2 hin hidx, ihy (into_trans hI.2 hin) hidx]
+    rw [ex, ey]
+
+
+/-! ### small index facts -/
+
+theorem inRange_nil {e : RIdx} (h : InRange e []) : e = [] := by
+  cases e with
+  | nil => rfl
+  | cons _ _ => simp [InRange] at h
+
+theorem inRange_one {e : RIdx} {n : Nat} (h : InRange e [n]) : ∃ i, e = [i] ∧ i < n := by
+  match e, h with
+  | [i], h => exact ⟨i, rfl, h.1⟩
+  | _ :: _ :: _, h => simp [InRange] at h
+
+theorem inRange_two {e : RIdx} {m n : Nat} (h : InRange e [m, n]) : ∃ j i, e = [j, i] ∧ j < m ∧ i < n := by
+  match e, h with
+  | [j, i], h => exact ⟨j, i, rfl, h.1, h.2.1⟩
+  | [_], h => simp [InRange] at h
+  | _ :: _ :: _ :: _, h => simp [InRange] at h
+
+theorem mem_allIdx_inRange {s : RShape} {x : RIdx} (h : x ∈ allIdx s) : InRange x s := by
+  simp only [allIdx, List.mem_map, List.mem_range] at h
+  obtain ⟨k, hk, rfl⟩ := h
+  exact unflat_inRange s k hk
+
+theorem length_two {l : RShape} (h : l.length = 2) : ∃ a b, l = [a, b] := by
+  match l, h with
+  | [a, b], _ => exact ⟨a, b, rfl⟩
+
+theorem length_one {l : RShape} (h : l.length = 1) : ∃ a, l = [a] := by
+  match l, h with
+  | [a], _ => exact ⟨a, rfl⟩
+
+theorem bcastR_length_eq : ∀ {s t r : RShape}, s.length = t.length → bcastR s t = some r → r.length = s.length
+  | [], [], r, _, h => by simp [bcastR] at h; subst h; rfl
+  | a :: as, b :: bs, r, hl, h => by
+    obtain ⟨d, r', _, hr, rfl⟩ := bcastR_cons h
+    simp [bcastR_length_eq (by simpa using hl) hr]
+
+theorem bcastR_append : ∀ {ea eb eo ba bb bs : RShape}, ea.length = eb.length → bcastR ea eb = some eo →
+    bcastR ba bb = some bs → bcastR (ea ++ ba) (eb ++ bb) = some (eo ++ bs)
+  | [], [], eo, ba, bb, bs, _, h, hb => by simp [bcastR] at h; subst h; simpa using hb
+  | a :: as, b :: bs', eo, ba, bb, bs, hl, h, hb => by
+    obtain ⟨d, r', hd, hr, rfl⟩ := bcastR_cons h
+    have := bcastR_append (by simpa using hl) hr hb
+    simp [bcastR, hd, this]
+
+theorem bidxR_append : ∀ {ea : RShape} {e : RIdx} (ba : RShape) (idx : RIdx), e.length = ea.length →
+    bidxR (ea ++ ba) (e ++ idx) = bidxR ea e ++ bidxR ba idx
+  | [], [], ba, idx, _ => by simp [bidxR]
+  | a :: as, i :: is, ba, idx, h => by
+    simp only [List.cons_append, bidxR]
+    rw [bidxR_append ba idx (by simpa using h)]
+
+/-! ### entry-level descriptions of the generated choreographies (their `Holds` proofs are theorems of `Props/C08Compose`) -/
+
+section Specs
+open Gen.BatchChoreo
+variable [Add α] [OfNat α 0]
+
+def lsDivSpec (f : α → α → α) : Spec2 α :=
+  ⟨2, 2, fun ea _ => ea, fun ea eb => ∃ d n, ea = [d, n] ∧ (eb = [d, 1] ∨ eb = [1, 1]),
+   fun x ℓ => runBinary lengthscaleDivOps f x ℓ [] [], fun _ eb e u v => f (u e) (v (bidxR eb e))⟩
+
+def scaleSpec (f : α → α → α) : Spec2 α :=
+  ⟨2, 0, fun ea _ => ea, fun _ _ => True, fun K os => runBinary scaleFullOps f K os [] [], fun _ _ e u v => f (u e) (v [])⟩
+
+def scaleDiagSpec (f : α → α → α) : Spec2 α :=
+  ⟨1, 0, fun ea _ => ea, fun _ _ => True, fun K os => runBinary scaleDiagOps f K os [] [], fun _ _ e u v => f (u e) (v [])⟩
+
+def rqSpec (f : α → α → α) (distRank kbRank : Nat) : Spec2 α :=
+  ⟨2, 1, fun ea _ => ea, fun _ eb => eb = [1],
+   fun dist alpha => runBinary (rqAlphaOps false false distRank kbRank) f dist alpha [] [], fun _ _ e u v => f (u e) (v [0])⟩
+
+def rqDiagSpec (f : α → α → α) (distRank kbRank : Nat) : Spec2 α :=
+  ⟨1, 1, fun ea _ => ea, fun _ eb => eb = [1],
+   fun dist alpha => runBinary (rqAlphaOps true false distRank kbRank) f dist alpha [] [], fun _ _ e u v => f (u e) (v [0])⟩
+
+def noiseSpec (zero : α) : Spec2 α :=
+  ⟨1, 1, fun _ eb => [eb.headD 0, eb.headD 0], fun ea _ => ea = [1],
+   fun noise μ => runConstDiag homoNoiseOps zero noise [μ.shape.drop 1] (μ.shape.headD 0),
+   fun _ _ e u _ => if e.getD 0 0 = e.getD 1 0 then u [0] else zero⟩
+
+def constMeanSpec : Spec2 α :=
+  ⟨0, 2, fun _ eb => [eb.getD 1 0], fun _ _ => True, fun c x => runParam constantMeanOps c [x.shape.drop 1] [],
+   fun _ _ _ u _ => u []⟩
+
+def priorReduceSpec (k : Nat) : Spec1 α :=
+  ⟨k, fun _ => [], fun _ => True, fun t => runParam exactPriorOps t [] [t.shape.length - k],
+   fun ea _ u => ((allIdx ea).map u).foldr (· + ·) 0⟩
+
+def approxPriorReduceSpec (k : Nat) : Spec1 α :=
+  ⟨k, fun _ => [], fun _ => True, fun t => runParam approxPriorOps t [] [t.shape.length - k],
+   fun ea _ u => ((allIdx ea).map u).foldr (· + ·) 0⟩
+
+def map2Spec (k : Nat) (f : α → α → α) : Spec2 α :=
+  ⟨k, k, fun ea eb => (bcastR ea eb).getD [], fun ea eb => (bcastR ea eb).isSome, fun a b => T.map2 f a b,
+   fun ea eb e u v => f (u (bidxR ea e)) (v (bidxR eb e))⟩
+
+def ewSpec (k : Nat) (f : α → α → α) : Spec2 α :=
+  ⟨k, k, fun ea _ => ea, fun ea eb => ea = eb, fun a b => T.map2 f a b, fun _ _ e u v => f (u e) (v e)⟩
+
+end Specs
+
 end Pipeline
